@@ -49,6 +49,7 @@ type Case struct {
 	RecShape     string `json:"record_shape,omitempty"` // shape of the unspent.txt records ("" = node)
 	ForeignFirst bool   `json:"foreign_first"`          // a listed output of somebody else's in front
 	ForeignKind  string `json:"foreign_kind,omitempty"` // script kind of that output ("" = p2pkh)
+	Tamper       string `json:"tamper,omitempty"`       // plain | witness: the stored transaction of the first owned output was altered (its value raised tenfold) and is stored in that format under the old id
 
 	Dests   []Dest `json:"dests"`
 	AmtFmt  string `json:"amount_format"` // full | short
@@ -310,6 +311,33 @@ func buildFolder(id *identity, c *Case) *folder {
 		}
 	default:
 		ev.HarnessError("unknown layout %q", c.Layout)
+	}
+	if c.Tamper != "" {
+		// the file no longer hashes to the id it is stored under: the wallet has nothing it can
+		// trust about that output (amounts are not part of a legacy signature's protection for the signer)
+		for _, l := range f.Listed {
+			if l.Key < 0 {
+				continue
+			}
+			name := "balance/" + revHex(l.Prev) + ".tx"
+			t, _, err := reftx.DecodeTx(f.Files[name])
+			if err != nil {
+				ev.HarnessError("tamper: %v", err)
+			}
+			t.Out[l.Vout].Value *= 10
+			if c.Tamper == "witness" {
+				t.In[0].Script = nil
+				t.In[0].Witness = [][]byte{{1, 2, 3}}
+				f.Files[name] = t.Serialize(true)
+			} else {
+				t.In[0].Witness = nil
+				if len(t.In[0].Script) == 0 {
+					t.In[0].Script = []byte{2, 0x51, 0x51}
+				}
+				f.Files[name] = t.Serialize(false)
+			}
+			break
+		}
 	}
 	var sb strings.Builder
 	for i, l := range f.Listed {
